@@ -91,12 +91,16 @@ def finish_native(p, path, timeout):
 
 def obligation_failed(o):
     if o.expect == "unsat":
+        if o.extra.get("definite") and o.verdict != "unsat":
+            return True      # the goal is literally False (e.g. an invariant over a variable that no longer exists here): fails unless the path is infeasible
         return o.verdict == "sat"
     return o.verdict == "unsat"      # cover / canary refuted
 
 
 def obligation_undecided(o):
     if o.expect == "unsat":
+        if o.extra.get("definite"):
+            return False
         return o.verdict not in ("sat", "unsat")
     return False                     # covers: unknown == not refuted
 
@@ -175,8 +179,19 @@ def run_check(pid, tier, seed):
     handled_native = set()
     by_func = {}
     for o in failed:
-        by_func.setdefault((o.func, o.extra.get("clause") or o.desc), []).append(o)
-    for (func, text), os_ in by_func.items():
+        by_func.setdefault(o.func, []).append(o)
+    for func, os_ in by_func.items():
+        # one report per function; an obligation matching an open finding is set aside first
+        rest = []
+        for o in os_:
+            fd = next((f for f in findings if finding_matches(f, pid, func, o.kind, o.desc)), None)
+            if fd:
+                known.append((fd, o))
+            else:
+                rest.append(o)
+        if not rest:
+            continue
+        os_ = rest
         o = os_[0]
         fd = next((f for f in findings if finding_matches(f, pid, func, o.kind, o.desc)), None)
         if fd:
@@ -259,7 +274,7 @@ def run_check(pid, tier, seed):
     checker_problems = []
     if cover_refuted:
         checker_problems.append("vacuity: cover/canary refuted: " + ", ".join(o.id for o in cover_refuted[:5]))
-    if n_ob < prop.get("min_obligations", 1):
+    if n_ob < prop.get("min_obligations", 1) and not undecided_funcs:
         checker_problems.append(f"only {n_ob} obligations generated (minimum {prop.get('min_obligations', 1)})")
     if disagreements:
         checker_problems.append(f"solver disagreement on {disagreements[:3]}")
